@@ -147,7 +147,20 @@ def fit_into_array(
     return output
 
 
-@lru_cache(maxsize=128)  # One must add parameter 'maxsize' for Python 3.7
+def _get_file_signature(filename: str | Path) -> tuple | None:
+    """Get a token that changes whenever the content of a local file changes."""
+    from pyxel.util import resolve_with_working_directory
+
+    full_filename = resolve_with_working_directory(filename)
+    try:
+        stat = Path(full_filename).expanduser().stat()
+    except (OSError, ValueError):
+        # Not a local file (e.g. an URL)
+        return None
+
+    return str(full_filename), stat.st_mtime_ns, stat.st_size
+
+
 def load_cropped_and_aligned_image(
     shape: tuple[int, ...],
     filename: str | Path,
@@ -157,6 +170,33 @@ def load_cropped_and_aligned_image(
         Literal["center", "top_left", "top_right", "bottom_left", "bottom_right"] | None
     ) = None,
     allow_smaller_array: bool = True,
+) -> np.ndarray:
+    """Load image from file and fit to detector shape.
+
+    The result is cached until the file is modified.
+    """
+    return _load_cropped_and_aligned_image(
+        shape=shape,
+        filename=filename,
+        position_x=position_x,
+        position_y=position_y,
+        align=align,
+        allow_smaller_array=allow_smaller_array,
+        file_signature=_get_file_signature(filename),
+    )
+
+
+@lru_cache(maxsize=128)  # One must add parameter 'maxsize' for Python 3.7
+def _load_cropped_and_aligned_image(
+    shape: tuple[int, ...],
+    filename: str | Path,
+    position_x: int = 0,
+    position_y: int = 0,
+    align: (
+        Literal["center", "top_left", "top_right", "bottom_left", "bottom_right"] | None
+    ) = None,
+    allow_smaller_array: bool = True,
+    file_signature: tuple | None = None,
 ) -> np.ndarray:
     """Load image from file and fit to detector shape.
 
